@@ -1135,6 +1135,7 @@ def bytes_requests(maxlen, kinds, sites):
 
 NUM_ALPHA = "019_.e+jxboa"
 FSTR_ALPHA = "{}y!r:=\\"
+FSTR_ALPHA2 = "{}y()[]\""
 STR_ALPHA = "'\"a\\\n"
 
 
@@ -1232,6 +1233,12 @@ def streams(ctx):
                       kind="exhaustive", exhaustive=True, nontrivial=lambda r: "24" in r.split()[1],
                       note="`match` + every line over { s, :, (, ), lambda, $ }: is the head delivered as keyword or "
                            "as NAME (ties the look-ahead model behind the second known finding)"))
+
+    Lf2 = 5 if q else 6
+    out.append(Stream(f"fstr-delimiters-exhaustive-len<={Lf2}", [f"fstr {hexs(w)}" for w in words(FSTR_ALPHA2, Lf2, 0)],
+                      kind="exhaustive", exhaustive=True, nontrivial=_violating,
+                      note="all f-string bodies over { } y ( ) [ ] \" : the delimiter, mismatch, unmatched and "
+                           "quoted-text arms of parse_formatted_value"))
 
     # ---- (2) the catalogue applied at every applicable site
     site = []
